@@ -76,6 +76,12 @@ class LateBox:
   def vt_bound(self):
     return {'items': self.items}
 
+  def __getitem__(self, i):         # its path elements are daglish.Index: must be followable
+    return self.items[i]
+
+  def __setitem__(self, i, v):
+    self.items[i] = v
+
   def __eq__(self, other):          # structural, like a dataclass
     return type(other) is LateBox and self.items == other.items
 
